@@ -104,6 +104,7 @@ def check(repo: Repo) -> Result:
     readonly_default(repo, res)
     registry_selection(repo, res)
     parsed_in_own_registry(repo, res)
+    registry_parameter_threaded(repo, res)
     namespaces(repo, res)
     from rules import c07
     from rules.common import share
@@ -412,6 +413,30 @@ def parsed_in_own_registry(repo, res):
         raise AnalysisError(f"{ARR}: fewer than two `Unit(<parameter>, registry=self...)` parsing sites found")
 
 
+def registry_parameter_threaded(repo, res):
+    """C13-R9: a function that is handed a registry (parameter `registry` / `unit_registry`) reads unit text in that
+    registry: every Unit(<text or expression>) it builds passes the parameter on.  A Unit(...) without it is parsed by
+    the default registry - symbols the caller's registry adds are unknown there, symbols it re-defines get the default
+    meaning."""
+    r9 = res.rule("C13-R9", "functions that take a registry parameter pass it to every Unit they build from an argument", floor=3)
+    n = 0
+    for rel in (ARR, UO):
+        mod = repo.mod(rel)
+        for q, fns in mod.funcs.items():
+            for f in fns:
+                regs = [p for p in f.params if p in ("registry", "unit_registry")]
+                if not regs or q in ("Unit.__new__",):
+                    continue
+                sites = [c for c in walk_no_nested(f.node) if isinstance(c, ast.Call) and norm(c.func) == "Unit" and c.args]
+                if not sites:
+                    continue
+                missing = [norm(c)[:70] for c in sites if kwarg_of(c, "registry") is None and len(c.args) < 5]
+                n += 1
+                res.check(not missing, f"{rel.split('/')[-1]}:{q}:registry-threaded", f.where(), f"{q} takes the registry {regs[0]!r} but builds a Unit without it: that unit text is read by the default registry (unyt_quantity.from_string('foo', unit_registry=r) raises for a symbol only r defines)", f"Unit(..., registry={regs[0]})", missing[:2], rid=r9)
+    if n < 3:
+        raise AnalysisError("fewer than three functions with a registry parameter that build Units were found")
+
+
 def registry_selection(repo, res):
     r4 = res.rule("C13-R4", "mixed-registry operations use an operand's registry, never mutate a registry and never re-point an existing Unit", floor=4)
     arr = repo.mod(ARR)
@@ -544,6 +569,7 @@ MUTANTS = [
     Mutant("array-deepcopy-shares-registry", ARR, "unyt_array.__deepcopy__", "copy.deepcopy(self.units)", "self.units.copy()", ("C13-R1",), count=2),
     Mutant("class-level-unit-cache", REG, None, "    _unit_system_id = None\n", "    _unit_system_id = None\n    _unit_object_cache = {}\n", ("C13-R1",)),
     Mutant("to-equivalent-reparses-raw-unit", ARR, "unyt_array.to_equivalent", "return new_arr.in_units(conv_unit)", "return new_arr.in_units(unit)", ("C13-R8",)),
+    Mutant("from-string-parses-in-default-registry", ARR, "unyt_array.from_string", "            unit = re.match(_UNIT_REGEXP, v).group()\n", "            unit = Unit(re.match(_UNIT_REGEXP, v).group())\n", ("C13-R9",)),
     Mutant("deepcopy-shares", REG, "UnitRegistry.__deepcopy__", "lut = dict(self.lut)", "lut = self.lut", ("C13-R1",)),
     Mutant("init-aliases-default", REG, "UnitRegistry.__init__", "            self.lut = {}\n", "            self.lut = default_unit_symbol_lut\n", ("C13-R1", "C13-R2")),
     Mutant("init-shared-cache", REG, "UnitRegistry.__init__", "        self._unit_object_cache = {}\n", "        self._unit_object_cache = _shared_cache\n", ("C13-R1",)),
